@@ -34,7 +34,11 @@ for d in sorted(glob.glob(f"{V}/seeded/*/meta.json")):
     det = {}
     dp = os.path.join(os.path.dirname(d), "detection.json")
     if os.path.exists(dp): det = json.load(open(dp))
-    origin = "fix reverted" if "-fix-" in sd else ("sub-agent wave %d" % {"a": 1, "b": 1, "c": 2, "d": 2, "e": 3, "f": 3}.get(sd[-1], 0))
+    mw = re.search(r"wave (\d+)", meta.get("origin", ""))
+    letters = sd.split("-", 1)[1] if "-" in sd else ""
+    guess = {"a": 1, "b": 1, "c": 2, "d": 2, "e": 3, "f": 3}.get(letters, 0) if len(letters) == 1 else 0
+    wave = int(mw.group(1)) if mw and int(mw.group(1)) > 2 else (guess or (int(mw.group(1)) if mw else 0))
+    origin = "fix reverted" if "-fix-" in sd else ("sub-agent wave %s" % (wave if wave else "?"))
     keys = det.get("new_violation_keys", [])
     rep = "<br>".join("`%s`" % k[:110] for k in keys[:3]) + (" …(+%d)" % (len(keys) - 3) if len(keys) > 3 else "")
     summ = re.sub(r"\s+", " ", meta.get("summary", ""))[:230].replace("|", "\\|")
